@@ -529,6 +529,46 @@ def make_case(rng, seed):
     return prog, src, cfgs
 
 
+# keys OUTSIDE the theorem's key alphabet (real JSON keys all the same: punctuation, spaces, quotes, non-ASCII)
+ODD_KEYS = ["it's", 'first name', '$ref', '@type', 'a.b', 'a/b', 'x:y', 'naïve', '#id', 'q?', "o'c'k", 'a+b', '(x)', '1st', 'say "hi"', 'back\\slash', 'tab\there']
+
+
+def run_odd_keys(chk, n):
+    """Outside the key alphabet nothing is judged (the extractors cannot read such members and several back ends print ill-formed
+    declarations there), but the byte-faithful model still has to agree with the real generators: whole output bytes of model and
+    real code on programs whose renames are drawn from ODD_KEYS, all six languages (seeded C01_e: Go's struct tag escaping an
+    apostrophe).  A difference is a broken correspondence, reported without a failing input."""
+    import random
+    cases = []
+    for _ in range(n):
+        sd = chk.rng.getrandbits(32)
+        r = random.Random(sd)
+        g = C01Gen(r, profile())
+        prog = g.program(sd)
+        fields = [f for it in prog.items for f in list(it.fields) + [vf_ for v in it.variants for vf_ in v.fields]]
+        if not fields:
+            continue
+        for f in r.sample(fields, min(len(fields), r.randint(1, 3))):
+            f.rename = r.choice(ODD_KEYS)
+        for it in prog.items:
+            for v in it.variants:
+                if v.rename is not None and not re.fullmatch(r'[A-Za-z][A-Za-z0-9]*', v.rename):
+                    v.rename = 'Renamed'
+        src = progs.source(prog)
+        for lang in LANGS:
+            cases.append((lang, gen_cfg(r, lang, prog), src, []))
+    res = back.run_src(cases)
+    bad = []
+    for (lang, cfg, src, _), r in zip(cases, res):
+        chk.count('odd_key_files')
+        if not back.same(r['impl'], r['model']):
+            chk.count(f'odd_key_mismatch_{lang}')
+            bad.append({'lang': lang, 'cfg': cfg, 'src': src, 'impl': list(r['impl'])[:1] + [str(r['impl'][1])[:1500]], 'model': list(r['model'])[:1] + [str(r['model'][1])[:1500]]})
+    if bad:
+        soft(chk).append(('correspondence-odd-keys', dict(bad[0], n_cases=len(bad)),
+                          'on keys outside the theorem\'s alphabet the bytes of the model and of the real generator differ'))
+
+
 def run(chk):
     chk.rule = ('programs of 1-5 items (structs, adjacently tagged enums with struct variants, decoys) with fields drawn from snake identifiers, '
                 'raw identifiers and target-language keywords; per-field serde(rename) over [A-Za-z_][A-Za-z0-9_-]* incl. dashed / keyword values and '
@@ -557,6 +597,7 @@ def run(chk):
             bcases.append((prog, src, {lang: gen_cfg_binary(r, lang) for lang in LANGS}))
         run_batch(chk, bcases, via_binary=True)
     run_ir_batch(chk, 150 if chk.tier == 'quick' else 3000)
+    run_odd_keys(chk, 60 if chk.tier == 'quick' else 1200)
     report_soft(chk)
     if chk.tier == 'thorough':
         serde_ground_truth(chk, seeds[:1500])
